@@ -575,7 +575,7 @@ fn is_end_bound_safe_for_groups(
         }
         WindowFrameBound::Following(ScalarValue::UInt64(Some(offset))) => {
             let delta = state.group_end_indices.len() - state.current_group_idx;
-            if delta == (*offset as usize) + 1 {
+            if (*offset as usize).checked_add(1) == Some(delta) {
                 is_row_ahead(orderby_col, most_recent_ob_col, sort_options)
             } else {
                 Ok(false)
